@@ -372,6 +372,43 @@ func c155(c *an.Ctx, p *an.Prog, x *fsx) {
 	}
 }
 
+// commitFailureKind names what failed after the commit point. Failing to make the rename durable — opening the base
+// directory for fsync, the fsync itself, or a module function that does nothing but these — is one kind ("dir-fsync")
+// however the code is arranged; anything else is named by the call whose error is returned.
+func commitFailureKind(s *an.PathState, x *fsx, p *an.Prog, r *an.Term) string {
+	if c, _ := r.CallOf(); c != nil {
+		switch c.Aux {
+		case "(*os.File).Sync":
+			if sh := x.fileShape(s, c.Args[0], 0); sh.Kind == "base" {
+				return "dir-fsync"
+			}
+		case "os.Open":
+			if sh := x.shapeOf(s, c.Args[0], 0); sh.Kind == "base" {
+				return "dir-open" // avoidable where the directory can be opened before the rename
+			}
+		}
+		if g := staticCallee(c); g != nil && p.InRepo(g) {
+			calls, unknown := p.ExtCalls(g)
+			only, hasSync := len(unknown) == 0, false
+			for _, ec := range calls {
+				switch {
+				case ec.Effect == an.EffFSSync:
+					hasSync = true
+				case ec.Name == "os.Open" || ec.Name == "(*os.File).Close":
+				default:
+					only = false
+				}
+			}
+			if only && hasSync && len(c.Args) > 0 {
+				if sh := x.shapeOf(s, c.Args[len(c.Args)-1], 0); sh.Kind == "base" {
+					return "dir-sync-helper" // opens the directory and fsyncs it: two failure points after the commit
+				}
+			}
+		}
+	}
+	return shortTerm(r)
+}
+
 func shortTerm(t *an.Term) string {
 	if c, i := t.CallOf(); c != nil {
 		if i >= 0 {
@@ -546,7 +583,7 @@ func c156(c *an.Ctx, p *an.Prog, x *fsx) {
 			if restoresAfterCommit(s, x, idx) {
 				return
 			}
-			desc := "return-after-commit:" + shortTerm(r)
+			desc := "return-after-commit:" + commitFailureKind(s, x, p, r)
 			bad[desc] = fmt.Sprintf("exit returning %s (%s) is reachable after the rename succeeded: the caller sees a failure although the record has changed (path %s)", shortTerm(r), k, s.BlockPath())
 		})
 		c.Stats["cfg_paths_enumerated"] += er.Paths
